@@ -764,6 +764,20 @@ func execC20(r *Run) {
 		case "garbage":
 			payload = append([]byte{serf.PingVersion}, s.B...)
 			r.Fault("garbage-payload")
+			// random bytes are, once in a long while, the array form of a well-formed
+			// coordinate: then they are one (found by the thorough tier), and the usual rules
+			// say whether it must be accepted
+			var co coordinate.Coordinate
+			if err := codec.NewDecoder(bytes.NewReader(s.B), &codec.MsgpackHandle{}).Decode(&co); err == nil {
+				pc = &co
+				valid = len(pc.Vec) == int(cfg.Dimensionality) && finite(pc.Error) && finite(pc.Height) && finite(pc.Adjustment)
+				for _, v := range pc.Vec {
+					if !finite(v) {
+						valid = false
+					}
+				}
+				r.Probe("garbage-decodes-as-coordinate")
+			}
 		case "empty":
 			payload = nil
 		}
